@@ -507,6 +507,12 @@ def check_lse(line, meta, outs, stats):
         probs.append(("prop", "lse-not-finite", "log_sum_exp returned %r for entries with a finite one among them (overflow/underflow): exact value %.17g" % (val, fstar)))
     elif err > tol:
         probs.append(("prop", "lse-wrong", "log_sum_exp = %.17g, log(sum(exp(x))) = %.17g (tol %.3g)" % (val, fstar, tol)))
+    # subtracting it normalises: sum exp(x_i - LSE) = 1 (theorem lse_normalizes), evaluated with the implementation's value
+    if math.isfinite(val):
+        tot = math.fsum(math.exp(v - val) for v in x if v != -math.inf and v - val < 700)
+        tol_n = 8 * (n * EPS + EPS * (abs(mx) + abs(val))) + 2 * tol
+        if not (abs(tot - 1.0) <= tol_n):
+            probs.append(("prop", "lse-not-normalising", "sum exp(x_i - log_sum_exp(x)) = %.17g, not 1 (tol %.3g)" % (tot, tol_n)))
     # commutes with adding a constant
     hs = outs.get("hshift")
     if hs is not None:
